@@ -2438,6 +2438,20 @@ fn generate(args: &Args) -> Vec<String> {
             }
         }
     }
+    // (p) every error a callback can hand in, once through each server (socket leg forced): all RepeError variants and
+    // io::ErrorKinds from a custom handler, all StructError variants from a struct, all ErrorCodes from a closure
+    for srv in [0u64, 8, 1] {
+        let body = b"{\"a\":1}".to_vec();
+        for v in 0..32u32 {
+            g.push("twin", &format!("erased 0 {} 2 {} {} err {} 0 0 1 {} {} 0 1 0 0 0 0 {} {} 1 128", v % 3, hex(&body), hints_for("erased", &body), v, shex(TWIN_PATH), 1000 + v, shex(TWIN_PATH), srv));
+        }
+        for v in 0..7u32 {
+            g.push("twin", &format!("struct 0 1 2 {} {} err {} 0 0 1 {} {} 0 1 0 0 {} 0 {} {} 0 128", hex(&body), hints_for("struct", &body), v, shex(TWIN_PATH), 2000 + v, v, shex(TWIN_PATH), srv));
+        }
+        for c in [0u32, 1, 2, 3, 4, 5, 6, 7, 8, 9, 4096] {
+            g.push("twin", &format!("json 0 2 2 {} {} err {} 1 0 1 {} {} 0 1 0 0 0 0 {} {} 2 128", hex(&body), hints_for("json", &body), c, shex(TWIN_PATH), 3000 + c, shex(TWIN_PATH), srv));
+        }
+    }
     // (k) two knobs at once: every pair of knobs at both extremes, the socket leg forced
     {
         let knobs: Vec<(&str, [u64; 2])> = vec![("blocking", [0, 1]), ("nmw", [0, 33]), ("order", [0, 1]), ("decoys", [0, 65]), ("cb", [0, 4]), ("nodelay", [0, 1]), ("rto", [0, 2]), ("wto", [0, 4]), ("async", [0, 8]), ("cut", [0, 1]), ("stall", [0, 4]), ("slowread", [0, 16]), ("noread", [0, 32])];
